@@ -86,8 +86,31 @@ def chk_routes(c):
         d = bspline.deriv(K, coeffs, k, pts)
         assert np.max(np.abs(d - E[:, k, :].dot(coeffs))) <= tol(k) * 3 * n, 'deriv order %d (splev)' % k
     # assembler jets
-    V = assemble_tools.compute_values_derivs(K, pts, min(p, 2))
-    V = np.asarray(V)
+    nj = min(p, 2)
+    V = np.asarray(assemble_tools.compute_values_derivs(K, pts, nj))
+    assert V.shape == (n, len(pts), nj + 1), 'compute_values_derivs has shape %r' % (V.shape,)
+    for k in range(nj + 1):
+        assert np.max(np.abs(V[:, :, k] - E[:, k, :].T)) <= tol(k), 'compute_values_derivs order %d differs from the Cox-de Boor values' % k
+
+
+def chk_jets_sequence(c):
+    """the tables the assemblers are built from, requested one knot vector after the other IN ONE PROCESS for knot vectors that share degree,
+    dimension and evaluation grid (same break points, interior multiplicities distributed differently): each answer is that of its own knot vector"""
+    from pyiga import bspline, assemble_tools
+    p = c['p']
+    pts = np.array(kvgen.eval_points(c['kvs'][0]))
+    order = list(range(len(c['kvs']))) + list(range(len(c['kvs'])))[::-1]
+    nj = min(p, 2)
+    for j in order:
+        kv = c['kvs'][j]
+        K = bspline.KnotVector(np.array(kv, dtype=float), p)
+        V = np.asarray(assemble_tools.compute_values_derivs(K, pts, nj))
+        for k in range(nj + 1):
+            Ek = np.array([[float(v) for v in oracle.all_derivs(kv, p, u, nj)[k]] for u in pts])      # (npts, n)
+            t = 5e-10 * max(1.0, np.max(np.abs(Ek))) * 4 ** k
+            assert V.shape == (K.numdofs, len(pts), nj + 1) and np.max(np.abs(V[:, :, k] - Ek.T)) <= t, \
+                'compute_values_derivs for knot vector %d of the sequence (order %d) is not the table of that knot vector (max deviation %g)' % (
+                    j, k, np.max(np.abs(V[:, :, k] - Ek.T)))
 
 
 def chk_tensor(c):
@@ -105,7 +128,7 @@ def chk_tensor(c):
     assert np.max(np.abs(V - ref)) <= 1e-9 * max(1.0, np.max(np.abs(ref))), 'tensor-product grid_eval'
 
 
-CHECKS = {'active': chk_active, 'routes': chk_routes, 'tensor': chk_tensor}
+CHECKS = {'active': chk_active, 'routes': chk_routes, 'tensor': chk_tensor, 'jets_sequence': chk_jets_sequence}
 
 
 def generate(tier, rng):
@@ -121,6 +144,14 @@ def generate(tier, rng):
             for br in ([0.0, 0.5, 1.0], [0.0, 0.125, 1.0, 3.0]):
                 kv = [br[0]] * (p + 1) + [b for b in br[1:-1] for _ in range(1 + (p // 3))] + [br[-1]] * (p + 1)
                 yield 'active', {'p': p, 'kv': kv}
+    # families with equal degree, length and break points (the interior multiplicities sit at different break points)
+    fam = {}
+    for p, kv in kvs:
+        if p >= 2:
+            fam.setdefault((p, len(kv), tuple(sorted(set(kv)))), []).append(kv)
+    fams = [(k, v) for k, v in sorted(fam.items()) if len(v) >= 2]
+    for (p, _, _), members in fams[:(25 if quick else 200)]:
+        yield 'jets_sequence', {'p': p, 'kvs': members[:4]}
     small = [x for x in kvs if x[0] in (1, 2, 3) and len(x[1]) <= 9]
     for k in range(12 if quick else 60):
         a, b = rng.choice(small), rng.choice(small)
